@@ -245,8 +245,6 @@ def run_case(case):
         leaves = ["E%d" % j for j in range(nl)]
         t = mon_c07._rand_tree(rng, leaves)
         kind = rng.choice(mon_c07.KINDS)
-        if kind == "when" and len(mon_c07.dnf(t)) > 1:
-            kind = "await"  # the multi-group `when` defect (C07 known finding) raises KeyError mid-event
         src = mon_c07.program(t, kind)
         hist = [rng.choice(leaves + ["X"]) for _ in range(rng.randint(3, 8))]
         base.update(key="formula:%s:%s" % (src, hist), sample={"family": fam, "program": src, "history": hist})
